@@ -430,7 +430,7 @@ int main() {
     std::istringstream in(line); std::string kind; in >> kind;
     std::string res;
     {
-      Deadline d(kind == "PCQ" ? 60 : 30);
+      Deadline d(kind == "PCQ" ? 60 : 10);
       try {
         if (kind == "PCQ") res = do_pcq(in);
         else if (kind == "CHAIN") res = do_chain(in);
